@@ -88,7 +88,7 @@ def generate(R: Draw, tier: str) -> dict:
     k = R.weighted([("block", 5), ("inline", 3), ("malformed", 3), ("deadend", 2)])
     if k == "block":
         e = ge.random_ast(R, ["a", "b", "c", "d", "g", "g"], R.int(3, 12))
-        return {"mode": "block", "expr": ge.render(e, R), "ast_size": None}
+        return {"mode": "block", "expr": ge.render(e, R), "ast_size": None, "variant": R.int(1, 7), "variant2": R.int(1, 7)}
     if k == "inline":
         e = ge.random_ast(R, ["text", "br", "inline", "img"], R.int(0, 7))
         return {"mode": "inline", "expr": ge.render(e, R)}
@@ -109,13 +109,20 @@ LARGE_AUTOMATON = 1200  # reference derivative states; above this a case is inco
 
 def spec_for(case: dict) -> dict:
     if case["mode"] == "block":
+        # which of a, b, c belong to the group "g" (bits 1, 2, 4); 3 = {a, b} is the layout of the exhaustive part.
+        # The same expression text means different things under different memberships.
+        v = case.get("variant", 3)
+
+        def grp(bit: int) -> dict:
+            return {"group": "g"} if v & bit else {}
+
         return {
             "nodes": {
                 "doc": {"content": "host+"},
                 "host": {"content": case["expr"]},
-                "a": {"group": "g"},
-                "b": {"group": "g"},
-                "c": {},
+                "a": grp(1),
+                "b": grp(2),
+                "c": grp(4),
                 "d": {},
                 "r": {"attrs": {"must": {}}},
                 "para": {"content": "text*"},
@@ -139,6 +146,15 @@ def spec_for(case: dict) -> dict:
 
 
 def check(case: dict, ctx: Ctx) -> None:
+    """The expression is judged under its group layout and then - in the same process, with the same node names -
+    under a second layout: what an expression means depends on the schema it is compiled for, not on its text."""
+    _check_one(case, ctx)
+    if case.get("variant2") is not None and case["mode"] == "block":
+        ctx.label("second-group-layout")
+        _check_one({**case, "variant": case["variant2"]}, ctx)
+
+
+def _check_one(case: dict, ctx: Ctx) -> None:
     from prosemirror.model import Fragment, Schema
 
     spec = spec_for(case)
